@@ -38,10 +38,15 @@ def gen_case(seed, i, engine, placement=None):
         sh.dealt += 1        # the revision is consumed whatever happened
         sh.keys.pop(k, None)  # unknown to the shadow from now on
         lines += ["rev", "await retry.step"]
+        # a compaction while the write is still unresolved and still the newest revision (the cap is then
+        # exactly at the boundary), or later, after more requests
+        immediate = placement is not None and i % 2 == 0
+        if immediate:
+            lines.append("compact 0")
         if r.random() < 0.5:
             # later requests keep flowing, on the same and on other keys
             lines += hist.gen_writes(r, sh, r.randint(1, 4), keys, p_ok=0.6)
-        if r.random() < 0.4:
+        if not immediate and r.random() < 0.4:
             lines.append("compact 0")
     repairs = placement[2] if placement else [r.choice(["-", "-", "ua", "un", "e"]) for _ in range(r.randint(1, 3))]
     for f in repairs:
